@@ -1,6 +1,7 @@
 import Lean.Data.Json
 import Sqljson.Driver.Codec
 import Sqljson.Model.Api
+import Sqljson.Props.Fuel
 /-!
 # Driver side of the `exec` correspondence stream
 
@@ -108,7 +109,10 @@ def handleExec (j : Json) : Json :=
     let today := (getInt? j "today").getD 0
     let budget : Option Nat := (getInt? j "cancel").map Int.toNat
     let tbl := regexTable ((j.getObjVal? "regex").toOption.getD Json.null)
-    let fuel := ((getInt? j "fuel").map Int.toNat).getD fuelDefault
+    let mk0 : Api.Opts := { vars := vars }
+    -- never less than `fuelBound`, for which `FuelProps.fuel_adequate` proves the run finishes; by
+    -- `FuelProps.run_unique` the answer does not depend on the fuel once it does
+    let fuel := max (((getInt? j "fuel").map Int.toNat).getD fuelDefault) (FuelProps.fuelBound a doc mk0)
     let mk (d : Bool) : Api.Opts :=
       { vars := vars, silent := getBoolD j "silent" false, useTZ := getBoolD j "usetz" false,
         env := ⟨zone, today⟩, budget := budget, regexMatch := regexLookup tbl d }
